@@ -13,6 +13,7 @@ import (
 	"math"
 	"os"
 	"strings"
+	"time"
 )
 
 type replayValue struct {
@@ -286,3 +287,7 @@ func IteBool(c, a, b bool) bool {
 
 // IsConcrete reports whether s has no symbolic bytes (always true natively).
 func IsConcrete(s string) bool { return true }
+
+// Settle gives goroutines started by the code under test (commit actions run
+// in one) time to finish natively; under the executor they ran inline.
+func Settle() { time.Sleep(30 * time.Millisecond) }
